@@ -20,6 +20,19 @@ func blkShape(b *Blk, parents string, out map[string]bool) {
 	}
 }
 
+// gwInIncl: does an inclusive block contain another forking gateway block (parallel or inclusive)?
+func gwInIncl(b *Blk, inIncl bool) bool {
+	if inIncl && (b.Kind == "par" || b.Kind == "incl") {
+		return true
+	}
+	for _, k := range b.Kids {
+		if gwInIncl(k, inIncl || b.Kind == "incl") {
+			return true
+		}
+	}
+	return false
+}
+
 func runC01(env *Env) {
 	rep := &Report{Property: "C01",
 		Rule: "seeded block programs over {sequence, parallel, exclusive, inclusive with default, do-while loop, task with conditional outgoing flows, embedded sub-process}, up to ~10 tasks, nesting up to 3, random initial variables, seeded answer orders and variable writes (every other run with slow flow creation); after every answer the set of pending requests must be the token game's; then completion, one end event, final variables; non-trivial = more than three answers; distinct by (program, variables, script seed)"}
@@ -32,7 +45,10 @@ func runC01(env *Env) {
 		{Kind: "ctask", ID: 1, N: 0, Kids: []*Blk{{Kind: "task", ID: 2}, {Kind: "task", ID: 3}}},
 		{Kind: "incl", ID: 0, N: 1, Kids: []*Blk{{Kind: "task", ID: 1}, {Kind: "task", ID: 2}, {Kind: "task", ID: 3}}},
 		{Kind: "par", Kids: []*Blk{{Kind: "if", ID: 0, Kids: []*Blk{{Kind: "task", ID: 1}, {Kind: "skip"}}}, {Kind: "incl", ID: 1, N: 2, Kids: []*Blk{{Kind: "task", ID: 2}, {Kind: "task", ID: 3}, {Kind: "task", ID: 4}}}}},
+		// the known finding: a forking gateway nested in an inclusive block (kept last, run once each under the assignment that shows it)
+		{Kind: "incl", ID: 0, N: 1, Kids: []*Blk{{Kind: "incl", ID: 0, N: 1, Kids: []*Blk{{Kind: "task", ID: 1}, {Kind: "task", ID: 2}, {Kind: "skip"}}}, {Kind: "task", ID: 3}, {Kind: "skip"}}},
 	}
+	nFinding := 1
 	var items []string
 	var progs []*Blk
 	progs = append(progs, fixed...)
@@ -60,6 +76,12 @@ func runC01(env *Env) {
 			if pi < len(fixed) { // the fixed programs run under every interesting assignment
 				env0[0], env0[1] = s%2 == 0, s/2%2 == 0
 			}
+			if pi >= len(fixed)-nFinding && pi < len(fixed) {
+				if s > 0 {
+					break
+				}
+				env0[0], env0[1] = true, true
+			}
 			sc := blkScript{seed: env.Seed*100000 + int64(pi)*100 + int64(s) + 50, inLoop: inLoop}
 			cs := fmt.Sprintf("program %s, variables %v, script seed %d", prog, env0, sc.seed)
 			var sched []bpmn.Option
@@ -78,7 +100,11 @@ func runC01(env *Env) {
 				rep.Nontrivial++
 			}
 			if o.problem != "" {
-				rep.Violate("C01-token-game", cs, o.problem+"; log: "+logString(o.log))
+				key := "C01-token-game"
+				if gwInIncl(prog, false) {
+					key = "C01-gateway-nested-in-inclusive"
+				}
+				rep.Violate(key, cs, o.problem+"; log: "+logString(o.log))
 				continue
 			}
 			if ends := countEv(o.log, "complete", "end"); ends != 1 {
@@ -93,6 +119,6 @@ func runC01(env *Env) {
 			}
 		}
 	}
-	env.WriteCases(rep, "", "Corr.C12corr", "blk * list bool * list nat * list ostep * list bool * list (list nat)", items, "c12_mismatches")
+	env.WriteCases(rep, "", "Corr.C01corr", "blk * list bool * list nat * list ostep * list bool * list (list nat)", items, "c01_mismatches")
 	env.WriteReport(rep)
 }
